@@ -284,6 +284,62 @@ def repeated_bodies(fl: int, ah: bool, k: int, ws: bool) -> str:
     return verdict(untraced(_repeat_body, fl, ah, k, ws))
 
 
+def _empty_binary(fl, ah, mode):
+    """A MESSAGE whose payload is the EMPTY byte string (polling: the text packet 'b'; WebSocket: an empty binary frame),
+    followed by an ordinary message: two message events, b'' and 'after', and the session lives on."""
+    sut = mk(fl, async_handlers=ah)
+    try:
+        st = dict(flavour=sut.flavour, handlers='async' if ah else 'sync', mode=('polling', 'websocket', 'upgraded')[mode])
+        if mode == 1:
+            r = sut.open('websocket')
+            sut.settle()
+            peer = r.peer
+        else:
+            sut.open('polling')
+            sut.settle()
+            peer = None
+        sid = sut.sids()[0]
+        if mode == 2:
+            u = sut.ws_upgrade(sid)
+            sut.settle()
+            u.peer.send('2probe')
+            sut.settle()
+            u.peer.send('5')
+            sut.settle()
+            peer = u.peer
+        if peer is None:
+            p1 = sut.post(sid, 'b')
+            sut.settle()
+            p2 = sut.post(sid, '4after')
+            sut.settle()
+            if sut.status(p1) != 200 or sut.status(p2) != 200:
+                return fail(PROP, 'POST-STATUS', 'POST of an empty binary message answered %r, the next POST %r' % (sut.status(p1), sut.status(p2)), **st)
+        else:
+            peer.send(b'')
+            sut.settle()
+            peer.send('4after')
+            sut.settle()
+        sut.run(until=sut.k.now + 1)
+        got = [a for kind, s_, a in sut.events if kind == 'message']
+        if len(got) != 2 or not any(_same(x, b'') for x in got) or 'after' not in got or (not ah and got != [b'', 'after']):
+            return fail(PROP, 'MESSAGE-EVENTS', 'empty binary message then "after": message events %r' % (got,), **st)
+        disc = [a for kind, s_, a in sut.events if kind == 'disconnect']
+        if disc:
+            return fail(PROP, 'SPURIOUS-END', 'an empty binary message ended the session: %r' % (disc,), **st)
+        return ''
+    finally:
+        sut.close()
+
+
+@cond(quick=dict(timeout=60), thorough=dict(timeout=120))
+def empty_binary_message(fl: int, ah: bool, mode: int) -> str:
+    """
+    pre: 0 <= fl <= 1 and 0 <= mode <= 2
+    post: _ == ''
+    """
+    return verdict(untraced(_empty_binary, fl, ah, mode))
+
+
 def _dispatch_ws(fl, ah, upgraded, frames_spec):
     """Frames on an established WebSocket session (opened directly or reached by upgrade)."""
     sut = mk(fl, async_handlers=ah)
